@@ -1,6 +1,87 @@
-(* C12 — the solution checker accepts valid solutions and rejects injected breaches. *)
+(* C12 — the solution checker accepts valid solutions and rejects injected breaches.
+   The reference semantics is Spec/Valid.v (`valid_b`); the breach operators are Spec/Mutations.v.  This file contains only the
+   property theorems, each closed by `exact`.  The bundled Rust checker is tied to `valid_b` behaviourally (tools/props/c12.py). *)
 From VRP Require Import Base.Tac Model.Core Spec.Feasible Spec.Valid Proofs.ValidP Spec.Mutations Proofs.MutationsP.
 
+(* the verdict is the conjunction of the four rule groups *)
 Theorem C12_valid_b_groups : forall P S,
   valid_b P S = [] <-> precond_viol P = [] /\ accounted_b P S = [] /\ feasible_viols P S = [] /\ replay_viol P S = [].
 Proof. exact valid_b_nil. Qed.
+
+(* exact restatement for the group that has a declarative twin: job presence / uniqueness / one tour / assigned xor unassigned *)
+Theorem C12_accounting_sound_complete : forall P S, accounted_b P S = [] <-> Accounted P S.
+Proof. exact accounted_b_nil. Qed.
+
+(* ---- breach_is_invalid, class by class: for EVERY valid pair and EVERY applicable site the reference semantics rejects *)
+(* misreported load *)
+Theorem C12_breach_load_misreported : forall P S k s d,
+  valid_b P S = [] -> d <> 0 -> stop_at S k s <> None -> valid_b P (mutS (MLoad k s d) S) <> [].
+Proof. exact mut_load_invalid. Qed.
+
+(* unknown job: in a tour, in the unassigned list *)
+Theorem C12_breach_unknown_job_activity : forall P S k s a j x,
+  zmem j (job_ids P) = false -> act_at S k s a = Some x -> is_job_act x = true ->
+  valid_b P (mutS (MUnknownAct k s a j) S) <> [].
+Proof. exact mut_unknown_act_invalid. Qed.
+Theorem C12_breach_unknown_job_unassigned : forall P S j,
+  zmem j (job_ids P) = false -> valid_b P (mutS (MUnknownUn j) S) <> [].
+Proof. exact mut_unknown_un_invalid. Qed.
+
+(* duplicated / dropped job (unassigned list) *)
+Theorem C12_breach_duplicated_job_unassigned : forall P S i,
+  valid_b P S = [] -> (i < length (sl_unassigned S))%nat -> valid_b P (mutS (MDupUn i) S) <> [].
+Proof. exact mut_dup_un_invalid. Qed.
+Theorem C12_breach_dropped_job_unassigned : forall P S i,
+  valid_b P S = [] -> (i < length (sl_unassigned S))%nat -> valid_b P (mutS (MDropUn i) S) <> [].
+Proof. exact mut_drop_un_invalid. Qed.
+
+(* a job in two tours; a job both assigned and unassigned *)
+Theorem C12_breach_job_in_two_tours : forall P S k s k2 st,
+  valid_b P S = [] -> k <> k2 -> stop_at S k s = Some st -> has_job_act st = true -> tour_at S k2 <> None ->
+  valid_b P (mutS (MCopyStop k s k2) S) <> [].
+Proof. exact mut_copy_stop_invalid. Qed.
+Theorem C12_breach_assigned_and_unassigned : forall P S k s a x,
+  valid_b P S = [] -> act_at S k s a = Some x -> is_job_act x = true -> valid_b P (mutS (MBoth k s a) S) <> [].
+Proof. exact mut_both_invalid. Qed.
+
+(* cumulative distance / statistic mismatch (per tour, overall) *)
+Theorem C12_breach_distance : forall P S k s d,
+  valid_b P S = [] -> d <> 0 -> stop_at S k s <> None -> valid_b P (mutS (MDistance k s d) S) <> [].
+Proof. exact mut_distance_invalid. Qed.
+Theorem C12_breach_stat_tour : forall P S k f d,
+  valid_b P S = [] -> d <> 0 -> (f < 7)%nat -> tour_at S k <> None -> valid_b P (mutS (MStatTour k f d) S) <> [].
+Proof. exact mut_stat_tour_invalid. Qed.
+Theorem C12_breach_stat_total : forall P S f d,
+  valid_b P S = [] -> d <> 0 -> (f < 7)%nat -> valid_b P (mutS (MStatTotal f d) S) <> [].
+Proof. exact mut_stat_total_invalid. Qed.
+
+(* limit breach: the limit of the tour's vehicle type just below what the tour reports (no validity hypothesis needed) *)
+Theorem C12_breach_limit_distance : forall P S k t,
+  tour_at S k = Some t -> valid_b (mutP (MLimitDistance k) P S) (mutS (MLimitDistance k) S) <> [].
+Proof. exact mut_limit_distance_invalid. Qed.
+Theorem C12_breach_limit_duration : forall P S k t,
+  tour_at S k = Some t -> valid_b (mutP (MLimitDuration k) P S) (mutS (MLimitDuration k) S) <> [].
+Proof. exact mut_limit_duration_invalid. Qed.
+Theorem C12_breach_limit_size : forall P S k t,
+  tour_at S k = Some t -> valid_b (mutP (MLimitSize k) P S) (mutS (MLimitSize k) S) <> [].
+Proof. exact mut_limit_size_invalid. Qed.
+
+(* The full statement is
+     forall m P S, valid_b P S = [] -> applicable_b m P S = true -> valid_b (mutP m P S) (mutS m S) <> [].
+   Proved above for 13 of the 18 operators.  MISSING (no theorem; on every generated site the instance is evaluated inside Coq by
+   the correspondence, Mutations.run_mutation, and a counterexample would be reported as a disagreement): MCapacity (load above
+   capacity), MArrival (arrival mismatch), MDupAct (duplicated activity), MDropStop (dropped stop), MMoveStop (job split by moving a
+   stop).  What is missing for them is a decomposition lemma of flat_tour / rebuild around the changed stop. *)
+Theorem C12_breach_is_invalid_partial : forall m P S,
+  valid_b P S = [] -> applicable_b m P S = true ->
+  match m with MCapacity _ _ | MArrival _ _ _ | MDupAct _ _ | MDropStop _ _ | MMoveStop _ _ _ => True
+          | _ => valid_b (mutP m P S) (mutS m S) <> [] end.
+Proof. exact breach_is_invalid_partial. Qed.
+
+(* non-vacuity and witnesses on the concrete pair of Proofs/ValidP.v: the pair is valid, and the breaches the REAL checker was
+   found to accept (known findings C12-F1, C12-F2: cost / times statistics, first-stop distance) are rejected by the reference *)
+Theorem C12_nonvacuous : valid_b ex_P ex_S = []
+  /\ applicable_b (MStatTour 0 0 2) ex_P ex_S = true /\ valid_b ex_P (mutS (MStatTour 0 0 2) ex_S) = [RStatCost 0; RTotal 0]
+  /\ applicable_b (MDistance 0 0 2) ex_P ex_S = true /\ valid_b ex_P (mutS (MDistance 0 0 2) ex_S) = [RDistance 0 0]
+  /\ applicable_b (MCapacity 0 0) ex_P ex_S = true /\ valid_b (mutP (MCapacity 0 0) ex_P ex_S) ex_S <> [].
+Proof. exact c12_nonvacuous. Qed.
